@@ -61,6 +61,10 @@ def intrinsic_outcome(c: dict, reasons: List[str]):
             restarts += 1
             continue
         if reason == "SubmissionFailed":
+            # documented: maxRestarts 0 = "cannot restart at all"; the budget test precedes every kind of restart
+            # (re-submissions are not counted against it but need one unit of budget left)
+            if max_restarts != -1 and restarts + 1 > max_restarts:
+                return (SHUTDOWN if reason in c["shutdownOn"] else FAILED), launches
             if resub < 5:
                 resub += 1
                 continue
